@@ -43,6 +43,7 @@ def model_key(o):
     if code == 3:
         s = o[1]
         if s == 14: return '_recordReadVecInPlace:store-past-end'
+        if s == 17: return 'Db::_loadData:read-past-end'
         if s in (11, 12, 42): return '_recordReadVec:store-past-end'
         return SITE.get(s, 'site%d' % s) + ':store-out-of-bounds'
     if code == 2:
@@ -90,10 +91,13 @@ def run_children(ctx, exe, tmpdir, cases, batch=48, workers=None):
             done = len(lines)
             if done >= len(todo):
                 break
-            # the case todo[done] ended the child without a result line
-            err = open(ef, errors='replace').read()
-            results[todo[done]] = crash_outcome(rc, err)
-            todo = todo[done + 1:]
+            if done > 0 and lines[done - 1].startswith('(-3'):
+                todo = todo[done:]          # the child ended itself after a time-out: the next case has not run yet
+            else:
+                # the case todo[done] ended the child without a result line
+                err = open(ef, errors='replace').read()
+                results[todo[done]] = crash_outcome(rc, err)
+                todo = todo[done + 1:]
             for p in (cf, of, ef):
                 try: os.remove(p)
                 except OSError: pass
@@ -402,7 +406,7 @@ def check(ctx, quick, rng, runner, exe, tmpdir, proofs_ok):
                     stats['count_loop_benign'] = stats.get('count_loop_benign', 0) + 1
                 elif o1[0] >= 2:
                     stats['predicted_defect'] += 1; found_input = True
-                    key = model_key(o1)
+                    key = model_key(o2 if (o1[0] == 4 and o2[0] in (2, 3)) else o1)
                     report(key, '%s on a %s file (%s): the reader model (as the code is) predicts %s and the implementation shows it: %s' % (
                         name, CLS[cls], lab, {2: 'an escaping exception / assertion', 3: 'an out-of-bounds store', 4: 'a count-driven loop that no longer consumes input'}[o1[0]],
                         generic_bad or short(oi)), replay_of(cls, data, oi, model[i]), len(data))
@@ -468,7 +472,7 @@ def check_flags(cls, lab, data, oi, report, name):
 def illformed_why(cls, d):
     if cls == 2:
         g, db = d
-        if db[1] != (0 if g[0] == 0 else prod(g[1])): return 'number of samples %d differs from the grid size %s' % (db[1], g[1])
+        if db[1] != (0 if g[0] <= 0 else prod(g[1])): return 'number of samples %d differs from the grid size %s' % (db[1], g[1])
         if any(v < 0 for v in g[1]): return 'negative number of grid nodes %s' % (g[1],)
         return illformed_why(1, db)
     if cls == 1:
@@ -481,7 +485,7 @@ def illformed_why(cls, d):
 def illformed_key(cls, d):
     if cls == 2:
         g, db = d
-        if db[1] != (0 if g[0] == 0 else prod(g[1])):
+        if db[1] != (0 if g[0] <= 0 else prod(g[1])):
             return 'DbGrid::_deserialize:db-part-failure-ignored' if db[0] == 0 and db[1] == 0 else 'DbGrid::_deserialize:nech-differs-from-grid'
         if any(v < 0 for v in g[1]): return 'DbGrid::_deserialize:negative-nx'
         return illformed_key(1, db).replace('Db::', 'DbGrid::Db::')
